@@ -727,38 +727,43 @@ class Project(MessageHandler):
             processed: Set of already processed task IDs
             reverse_deps: Map of task ID -> list of successor tasks
         """
-        task_id = task.fullId if hasattr(task, "fullId") else id(task)
-        if task_id in processed:
-            return
-        processed.add(task_id)
+        # An explicit work list instead of recursion: dependency chains of a thousand
+        # tasks exhausted the interpreter's recursion limit.
+        pending: list[Any] = [task]
+        while pending:
+            task = pending.pop()
+            task_id = task.fullId if hasattr(task, "fullId") else id(task)
+            if task_id in processed:
+                continue
+            processed.add(task_id)
 
-        # Only process leaf tasks
-        if not task.leaf():
-            return
+            # Only process leaf tasks
+            if not task.leaf():
+                continue
 
-        # Check if task is already explicitly ASAP with a fixed start
-        # In that case, don't override
-        forward = task.get("forward", scIdx)
-        start = task.get("start", scIdx)
-        if forward is True and start:
-            # Explicitly ASAP with start date - don't change
-            return
+            # Check if task is already explicitly ASAP with a fixed start
+            # In that case, don't override
+            forward = task.get("forward", scIdx)
+            start = task.get("start", scIdx)
+            if forward is True and start:
+                # Explicitly ASAP with start date - don't change
+                continue
 
-        # Mark as ALAP (forward=False)
-        task[("forward", scIdx)] = False
+            # Mark as ALAP (forward=False)
+            task[("forward", scIdx)] = False
 
-        # Now propagate to predecessors of this task
-        deps = task.get("depends", scIdx) or []
-        for dep in deps:
-            if isinstance(dep, dict):
-                pred = dep.get("task")
-            elif hasattr(dep, "task"):
-                pred = dep.task
-            else:
-                pred = dep
-
-            if pred:
-                self._markTaskALAP(pred, scIdx, processed, reverse_deps)
+            # Now propagate to predecessors of this task (depth first, in written order)
+            preds: list[Any] = []
+            for dep in task.get("depends", scIdx) or []:
+                if isinstance(dep, dict):
+                    pred = dep.get("task")
+                elif hasattr(dep, "task"):
+                    pred = dep.task
+                else:
+                    pred = dep
+                if pred:
+                    preds.append(pred)
+            pending.extend(reversed(preds))
 
     def _extendProjectEndIfNeeded(self) -> None:
         """
